@@ -20,6 +20,8 @@ ASSUMPTIONS = ASSUMED_EXTERNALS + [
     'server tables (uuid4)',
     'RESULT messages name a worker of this server in completed_by '
     '(environment: only my workers send results)',
+    'ServerBase.schedule_tasks is used through its contract, which is '
+    'discharged under C15',
 ]
 
 SRV_FIELDS = [
@@ -37,22 +39,8 @@ def contracts(p: Program) -> list[str]:
         if target:
             targets.append(c.func)
 
-    # ---- callee contracts proved elsewhere (C15) / here -----------------
-    add(Contract(
-        'ServerBase.schedule_tasks',
-        params={'tasks': 'list[ref[RuntimeTask]]'},
-        requires=['len(self.employees) >= 1', 'Inv_emp(self)'],
-        ensures=[
-            'Inv_emp(self)',
-            # every message goes to an employee connection
-            '''forall(lambda i: implies(old(nsent()) <= i and i < nsent(),
-                 eff_kind(i, 'outgoing.put')
-                 and eff_a(i, 'Conn') in self.conn_to_employee_dict),
-               'int')''',
-        ],
-        modifies=['num_tasks', 'num_idle_workers', 'submit_cache', 'effects'],
-        note='assumed here; discharged under C15',
-    ), target=False)
+    # ServerBase.schedule_tasks: the contract proved under C15 is used
+    # (contracts.c15 is loaded first by setup()).
 
     add(Contract(
         'ServerBase.broadcast',
@@ -309,12 +297,12 @@ def contracts(p: Program) -> list[str]:
         'DetachedServer.handle_new_comp_task',
         params={'conn': 'Conn', 'task': 'ref[CompilationTask]'},
         requires=[
-            'Inv_srv(self)', 'Inv_emp(self)', 'conn in self.clients',
-            'len(self.employees) >= 1',
+            'Inv_srv(self)', 'Inv_emp(self)', 'Inv_sched(self)',
+            'conn in self.clients',
             'not (task.task_id in self.tasks)',
         ],
         ensures=[
-            'Inv_srv(self)', 'Inv_emp(self)',
+            'Inv_srv(self)', 'Inv_emp(self)', 'Inv_sched(self)',
             'task.task_id in self.tasks',
             'self.tasks[task.task_id] == (old(self.mailbox_counter), conn)',
             'task.task_id in self.clients[conn]',
@@ -467,7 +455,7 @@ def contracts(p: Program) -> list[str]:
                  not (self.tasks[payload][0] in self.mailboxes))''',
         ]),
         ('SUBMIT', 'ref[CompilationTask]', [
-            'len(self.employees) >= 1',
+            'Inv_sched(self)',
             'not (payload.task_id in self.tasks)',
         ], ['payload.task_id in self.clients[conn]']),
         ('DISCONNECT', 'Any', [], ['not (conn in self.clients)']),
@@ -486,8 +474,10 @@ def contracts(p: Program) -> list[str]:
 
 
 def setup(repo: str) -> tuple[Program, list[str]]:
+    from contracts import c15
     p = build(repo)
     add_macros(p)
+    c15.contracts(p)
     return p, contracts(p)
 
 
